@@ -52,7 +52,9 @@ def _resolve_target(
     of a member. Such a token does not address a member of the target document,
     so a patch operation must see it as missing.
     """
-    parent, obj = pointer.resolve_parent(data)
+    # _data_ has been loaded already. If an operation has made the document a
+    # string, it is a JSON string, not JSON text to be parsed.
+    parent, obj = pointer._resolve_parent(data)
     if (
         obj is not UNDEFINED
         and isinstance(parent, Mapping)
